@@ -24,6 +24,8 @@ type VSA struct {
 	Exact   map[*ssa.BasicBlock]bool
 	// Opaque counts conditions that could not be evaluated (informational)
 	Opaque int
+	// Derived optionally evaluates further values (by their term) as functions of the tuple.
+	Derived func(t *Term, tuple []int64) (int64, bool)
 }
 
 type tuple []int64
@@ -137,6 +139,11 @@ func (a *VSA) eval(v ssa.Value, t tuple, depth int) (int64, bool) {
 					return t[i], true
 				}
 			}
+		}
+	}
+	if a.Derived != nil && isCallLike(v) {
+		if r, ok := a.Derived(a.B.Of(v, nil), t); ok {
+			return r, true
 		}
 	}
 	switch x := v.(type) {
